@@ -824,7 +824,15 @@ class _ProbeContextInjectorNode(_ProbeNode):
             List[str]: A list of context keys that the processor will add or create
             as a result of execution.
         """
-        return [cls.context_key]
+        keys = [cls.context_key]
+        # Keys the wrapped probe itself declares (e.g. the ``<var>_values`` of a
+        # swept probe) are created by this node as well.
+        try:
+            declared = list(getattr(cls.processor, "get_created_keys", lambda: [])())
+        except Exception:
+            declared = []
+        keys.extend(key for key in declared if key not in keys)
+        return keys
 
     def __str__(self) -> str:
         """
